@@ -7,6 +7,7 @@ package main
 import (
 	"fmt"
 	"sort"
+	"strings"
 
 	"golang.org/x/tools/go/ssa"
 )
@@ -219,9 +220,18 @@ func (c *Ctx) traversalRule() {
 			sort.Slice(headers, func(i, j int) bool { return headers[i].Index < headers[j].Index })
 			for i, h := range headers {
 				l := seen[h]
-				key := fk(top, "loop", fmt.Sprint(i))
+				// the provider and consumer keepers share short names (keeper.Keeper.InitGenesis):
+				// qualify with the module directory
+				side := ""
+				switch {
+				case strings.Contains(fnPkgPath(top), "/x/ccv/provider"):
+					side = "provider:"
+				case strings.Contains(fnPkgPath(top), "/x/ccv/consumer"):
+					side = "consumer:"
+				}
+				key := side + fk(top, "loop", fmt.Sprint(i))
 				if fn != top {
-					key = fk(top, shortName(ssaFuncName(fn)), "loop", fmt.Sprint(i))
+					key = side + fk(top, shortName(ssaFuncName(fn)), "loop", fmt.Sprint(i))
 				}
 				var early *edge
 				for _, e := range l.exits() {
